@@ -73,7 +73,9 @@ def isSyntaxError : FrontResult → Bool
 /-! ## (E) the escape table (defined and evaluated in Props/C10Escapes.lean) -/
 
 /-- C10, escapes: EVERY named escape spelling, EVERY octal spelling (1, 2 and 3 digits, 0–0377)
-    and the representative hex spellings denote the stated code point.  Evaluated by the kernel
+    and the representative hex spellings denote the stated code point, and the hex spellings whose
+    value is no code point (`hexRows_errors`: 44 rows) are reported with the error naming them
+    (`hexDen`).  Evaluated by the kernel
     on rule `Escape` of the regenerated grammar (within the full linked grammar, with the real
     action code of peg.peg interpreted against the builder model). -/
 theorem C10_escape_table : ∀ row ∈ escTable, frontChar row.1 = some row.2 := by
@@ -172,6 +174,23 @@ theorem C10_precedence :
             seqN [nameN "a", nameN "b", nameN "c", seqN [nameN "d", nameN "e"]]] := by
   rw [front_eq]; kernel_rfl
 
+/-- A hex escape without a code point (surrogate, above U+10FFFF, beyond int32 / uint64) anywhere a
+    character can stand — literal, class item, range bound, case-insensitive forms — makes the front
+    end report the text: `Compile` returns one error per such escape, in text order, naming it as
+    written (`\0X…` is named `\0x…`); the neighbouring valid escapes (`\0xd7ff`, `\0x10FFFF`,
+    `\377`) are not reported. -/
+theorem C10_hex_no_codepoint_reported :
+    frontAll "package p\ntype T Peg {}\nr <- '\\0xd800'\n" = .invalid [hexErrMsg (symsOf "d800")] ∧
+    frontAll "package p\ntype T Peg {}\nr <- 'a\\0x110000' \"\\0XDFFF\" [\\0xd7ff-\\0xffffffff] [[x\\0x0080000000]] '\\0x10FFFF\\377'\ns <- [^\\0xffffffffffffffffffff]\n" =
+      .invalid [hexErrMsg (symsOf "110000"), hexErrMsg (symsOf "DFFF"), hexErrMsg (symsOf "ffffffff"),
+                hexErrMsg (symsOf "0080000000"), hexErrMsg (symsOf "ffffffffffffffffffff")] ∧
+    front "package p\ntype T Peg {}\nr <- '\\0xd7ff' [\\0xe000-\\0x10FFFF] '\\377'\n" =
+      some [seqN [cpN 0xd7ff, .mk .range [] 0 [cpN 0xe000, cpN 0x10ffff], cpN 255]] := by
+  refine ⟨?_, ?_, ?_⟩
+  · rw [frontAll_eq]; kernel_rfl
+  · rw [frontAll_eq]; kernel_rfl
+  · rw [front_eq]; kernel_rfl
+
 /-- Text that is not a grammar is a syntax error: representative malformed texts, including the
     empty literal / class shapes that used to yield an empty parser. -/
 theorem C10_rejects :
@@ -243,10 +262,11 @@ theorem C10_list_rules :
 /-! ## (U) universal theorems (proved in Proofs/FrontLemmas.lean), restated -/
 
 /-- What `AddAlternate` / `AddSequence` / `AddRange` build, for ANY stack with two entries. -/
-theorem C10_builder_addList_flatten (ty : NType) (a b : Node) (rest : List Node) (n : Nat) :
-    addList ty ⟨a :: b :: rest, n⟩ =
-      .ok ⟨(if b.t = ty then b.pushBack a else Node.mk ty [] 0 [b, a]) :: rest, n⟩ :=
-  builder_addList_flatten ty a b rest n
+theorem C10_builder_addList_flatten (ty : NType) (a b : Node) (rest : List Node) (n : Nat)
+    (es : List (List Sym)) :
+    addList ty ⟨a :: b :: rest, n, es⟩ =
+      .ok ⟨(if b.t = ty then b.pushBack a else Node.mk ty [] 0 [b, a]) :: rest, n, es⟩ :=
+  builder_addList_flatten ty a b rest n es
 
 /-- `PopFront` never hits the empty deque on a balanced call sequence, and an unbalanced one never
     completes. -/
@@ -255,10 +275,15 @@ theorem C10_builder_never_panics_on_balanced (ops : List Op) (st : BState) :
     (balanced ops st.items.length = false → ∀ st', applyOps ops st ≠ .ok st') :=
   ⟨builder_never_panics_on_balanced ops st, builder_unbalanced_fails ops st⟩
 
-/-- `AddHexaCharacter` / `AddOctalCharacter` for ALL non-empty digit strings. -/
+/-- `AddHexaCharacter` / `AddOctalCharacter` for ALL non-empty digit strings: a hex string whose
+    value is a code point pushes that character and records nothing; any other hex string (surrogate,
+    above U+10FFFF, however large) records the error naming the escape (and pushes a U+FFFD
+    placeholder that keeps the deque balanced; the tree is never compiled, `BState.finish`). -/
 theorem C10_escape_hex_spec (ds : List Sym) (v : Nat) (st : BState) (hne : ds ≠ [])
     (hv : digitsVal 16 ds 0 = some v) :
-    (Op.addHexaCharacter ds).apply st = .ok (st.pushFront (.leaf .character [clampRune v])) :=
+    (Op.addHexaCharacter ds).apply st =
+      .ok (if isCodePoint v = true then st.pushFront (.leaf .character [v])
+           else (st.addErr (hexErrMsg ds)).pushFront (.leaf .character [0xFFFD])) :=
   escape_hex_spec ds v st hne hv
 
 theorem C10_escape_octal_spec (ds : List Sym) (v : Nat) (st : BState) (hne : ds ≠ [])
@@ -269,30 +294,39 @@ theorem C10_escape_octal_spec (ds : List Sym) (v : Nat) (st : BState) (hne : ds 
 /-- The hex escape for ALL digit strings, at the level of the regenerated grammar (relational PEG
     semantics, so no fuel): `\0x` / `\0X` followed by any non-empty string of hex digits is consumed
     entirely by rule `Escape`, and `Execute()` on the resulting tokens, with the action code of
-    peg.peg run against the builder model, leaves exactly `Character clampRune(value)`: the code
-    point, or U+FFFD for surrogates and values above U+10FFFF (however large).  By `Eval_det` this
-    derivation is the only one. -/
+    peg.peg run against the builder model, ends in a state that `Compile` accepts as exactly
+    `Character value` when the value IS a Unicode code point, and that `Compile` refuses with
+    exactly the error naming the escape when it is NOT (surrogates and values above U+10FFFF,
+    however large).  By `Eval_det` this derivation is the only one. -/
 theorem C10_escape_hex_all (x : Sym) (hx : x = 120 ∨ x = 88) (ds : List Sym) (hne : ds ≠ [])
     (hall : ∀ c ∈ ds, isHexSym c = true) :
     ∃ v forest evs, digitsVal 16 ds 0 = some v ∧
       Eval pegLinked.G (fun _ _ => false) (92 :: 48 :: x :: ds) (.name "Escape") 0
         (.ok (3 + ds.length) forest) evs ∧
-      (execute pegActs (92 :: 48 :: x :: ds) (postorderL forest)).map
-          (fun e => runEvents pegTable e BState.init) =
-        some (.ok ⟨[.leaf .character [clampRune v]], 0⟩) := by
+      ∃ st, (execute pegActs (92 :: 48 :: x :: ds) (postorderL forest)).map
+          (fun e => runEvents pegTable e BState.init) = some (.ok st) ∧
+        st = (if isCodePoint v = true then ⟨[.leaf .character [v]], 0, []⟩
+              else ⟨[.leaf .character [0xFFFD]], 0, [hexErrMsg ds]⟩) ∧
+        st.finish = (if isCodePoint v = true then .ok [.leaf .character [v]]
+                     else .invalid [hexErrMsg ds]) := by
   obtain ⟨v, hv⟩ := digitsVal_hex ds 0 hall
   obtain ⟨evs, he⟩ := escape_hex_eval x hx ds hne hall
-  exact ⟨v, _, evs, hv, he, escape_hex_actions x ds v hne hv⟩
+  refine ⟨v, _, evs, hv, he, _, escape_hex_actions x ds v hne hv, rfl, ?_⟩
+  cases isCodePoint v <;> rfl
 
 /-- The model front end accepts only texts of the PEG language of the regenerated grammar, rejects
-    only texts outside it, and its verdict does not depend on the fuel. -/
+    as syntax errors only texts outside it, reports builder errors (`.invalid`) only for texts inside
+    it, and its verdict does not depend on the fuel. -/
 theorem C10_model_sound (text : List Sym) (fuel : Nat) :
     (∀ top, frontModel text fuel = .ok top →
       ∃ p forest evs, Eval pegLinked.G (fun _ _ => false) text (.name pegEntry) 0 (.ok p forest) evs) ∧
     (frontModel text fuel = .syntaxError →
-      ∃ evs, Eval pegLinked.G (fun _ _ => false) text (.name pegEntry) 0 .fail evs) := by
+      ∃ evs, Eval pegLinked.G (fun _ _ => false) text (.name pegEntry) 0 .fail evs) ∧
+    (∀ errs, frontModel text fuel = .invalid errs →
+      ∃ p forest evs, Eval pegLinked.G (fun _ _ => false) text (.name pegEntry) 0 (.ok p forest) evs) := by
   rw [frontModel_eq]
-  exact ⟨fun top h => frontCore_ok_sound _ _ _ _ _ _ top h, frontCore_syntaxError_sound _ _ _ _ _ _⟩
+  exact ⟨fun top h => frontCore_ok_sound _ _ _ _ _ _ top h, frontCore_syntaxError_sound _ _ _ _ _ _,
+    fun errs h => frontCore_invalid_sound _ _ _ _ _ _ errs h⟩
 
 theorem C10_fuel_irrelevant (text : List Sym) (f1 f2 : Nat)
     (h1 : frontModel text f1 ≠ .unsupported "out of fuel")
@@ -314,6 +348,7 @@ theorem C10_fuel_irrelevant (text : List Sym) (f1 f2 : Nat)
 #print axioms C10_imports
 #print axioms C10_actions
 #print axioms C10_precedence
+#print axioms C10_hex_no_codepoint_reported
 #print axioms C10_rejects
 #print axioms C10_precedence_chain
 #print axioms C10_list_rules
